@@ -74,7 +74,7 @@ class G:
 
     def objs_of(self, t):
         st = self.subtypes(t)
-        return [o for o, ot in self.objects if ot in st]
+        return [o for o, ot in self.objects if ot[1] in st]
 
     # ---- expressions ---------------------------------------------------------------------------
     def obj_term(self, t, scope, allow_fluent=True):
